@@ -11,7 +11,7 @@ CHECKS = {
     "C01": (
         EXH + " against a definitional reference model (combinations + order-isomorphism); histories re-using memoised pattern objects",
         "Every (pattern, permutation) pair below a length bound is enumerated and every entry point compared, as a list, with an independent oracle; above the bound Hypothesis plants occurrences, colours and re-uses memoised pattern objects across targets, including lazily consumed searches that overlap in time, searches aborted part-way by an injected asynchronous exception and patterns given in one-shot containers; thorough adds atheris campaigns with the oracle inside the target. Exploration is the right level: the property is universally quantified over an infinite domain; complete small worlds plus generated larger ones reach the off-by-one and memo faults the pruned backtracking search can have. Light sweep: listing / count / containment for all patterns of 3-6 points in every target of the next length (7 quick, 9 thorough).",
-        "Trusted: pv/oracle.py. Bounded: exhaustive |p|<=4,|t|<=6 quick (|p|<=5,|t|<=8 thorough); generated up to |p|<=6,|t|<=12 and |p|<=4,|t|<=24.",
+        "Trusted: pv/oracle.py. Bounded: exhaustive |p|<=4,|t|<=6 quick (|p|<=5,|t|<=8 thorough); generated up to |p|<=6,|t|<=12 and |p|<=4,|t|<=24. 70000 independent pairs with a pattern of 5-7 and a target of 8-12 points (3 million thorough).",
         "DESIGN.md 4/C01",
     ),
     "C02": (
@@ -23,24 +23,24 @@ CHECKS = {
     "C03": (
         EXH + " against a cell-counting reference model; bivincular family against adjacency semantics",
         "All 2^((k+1)^2) shadings of all patterns of length <=2 against all permutations up to the bound, all adjacency-requirement sets up to length 3, every entry point, every container form of shadings and requirements (one-shot iterators included); generated larger patterns, mixed lists and overlapping lazy enumerations with one pattern object. Exploration over complete small worlds is the right level for a property quantified over all shadings. Structured requirement sets (both ends, one end, inner columns, full) on patterns of 2-5 points with planted occurrences that survive the anchors.",
-        "Trusted: oracle mesh_occ and the adjacency formulation (cross-checked against each other in the self-test). Bounded: |t|<=5 quick / 6 thorough exhaustive; generated |p|<=4,|t|<=8.",
+        "Trusted: oracle mesh_occ and the adjacency formulation (cross-checked against each other in the self-test). Bounded: |t|<=5 quick / 6 thorough exhaustive; generated |p|<=4,|t|<=8. Light sweep: mesh patterns of length 2-3 with one or two shaded cells in every target up to length 8 (9 thorough).",
         "DESIGN.md 4/C03",
     ),
     "C04": (
         EXH + "; oracle = the eight affine maps of the square on points and cell centres; metamorphic two-sided equivariance",
-        "Each library symmetry is compared with the geometric map on every permutation up to the bound and on mesh patterns; dihedral relations, all_syms = orbit (closure under reverse/inverse), set helpers, lex_min constant on orbits, CLI output; equivariance of containment under all eight symmetries, for fresh pattern objects and for objects whose search table is already memoised. Every permutation up to length 8 (9 thorough); permutations of 1200-2500 points under the default recursion budget.",
+        "Each library symmetry is compared with the geometric map on every permutation up to the bound and on mesh patterns; dihedral relations, all_syms = orbit (closure under reverse/inverse), set helpers, lex_min constant on orbits, CLI output; equivariance of containment under all eight symmetries, for fresh pattern objects and for objects whose search table is already memoised. Every permutation up to length 8 (9 thorough); permutations of 1200-2500 points under the default recursion budget. Light equivariance sweep of contains() under all eight symmetries for every pair of lengths (4,6), (5,6), (5,7) (thorough to (5,8), (6,7)).",
         "Trusted: direction conventions fixed by the documented examples (checked in the self-test). Bounded: all perms <=7 quick / 8 thorough; mesh patterns <=1 exhaustive quick, <=2 thorough, generated <=4.",
         "DESIGN.md 4/C04",
     ),
     "C05": (
         "Hypothesis-generated multisets of patterns of all kinds built in every order + exhaustive small classical multisets; oracle = containment-minimal elements and brute-force class equality",
-        "Each multiset is built in all orders (<=24) and with repetitions through every constructor (lists, tuples, one-shot iterators, strings 0/1-based); results must be equal, hash-equal, antichains, equal to the reference minimal elements, fixed points, same class, same Av object. Light sweep of every pair of classical patterns of lengths up to (6, 7) (3.7 million pairs in the quick tier). Near-contained mesh pairs: a longer pattern whose shading is the union of the regions of a shorter one's cells with cells taken out.",
+        "Each multiset is built in all orders (<=24) and with repetitions through every constructor (lists, tuples, one-shot iterators, strings 0/1-based); results must be equal, hash-equal, antichains, equal to the reference minimal elements, fixed points, same class, same Av object. Light sweep of every pair of classical patterns of lengths up to (6, 7) (3.7 million pairs in the quick tier). Near-contained mesh pairs: a longer pattern whose shading is the union of the regions of a shorter one's cells with cells taken out. 96000 independent pairs (pattern 5-7, longer one 8-12).",
         "Trusted: oracle mesh-in-mesh containment. Bounded: <=4 patterns, lengths <=4 (mesh <=3), class equality to n=5.",
         "DESIGN.md 4/C05",
     ),
     "C06": (
         EXH + "; semantic oracle: composition of occurrences in every permutation up to |B|+1 (exact bound) + independent region arithmetic",
-        "Every reported occurrence of A in B is composed with every reference occurrence of B in every permutation of length <=|B|+1; induced sub-patterns are checked to be implied and strongest (every unshaded cell witnessed). Bivincular / vincular / covincular views of line-shaded patterns as smaller and larger pattern; counts compared in every case.",
+        "Every reported occurrence of A in B is composed with every reference occurrence of B in every permutation of length <=|B|+1; induced sub-patterns are checked to be implied and strongest (every unshaded cell witnessed). Bivincular / vincular / covincular views of line-shaded patterns as smaller and larger pattern; counts compared in every case. The transitive reading through the library's own boolean entry points.",
         "Trusted: oracle mesh_occ. The bound |B|+1 is exact (DESIGN.md). Bounded: |B|<=3 quick / 4 thorough generated; |B|<=1 all shadings, |B|=2 all shadings for sub-patterns.",
         "DESIGN.md 4/C06",
     ),
@@ -52,14 +52,14 @@ CHECKS = {
     ),
     "C09": (
         EXH + "; oracle = enumeration order, independent rank formula, stable-rank standardisation, round trips",
-        "All ranks/permutations up to length 7 (8 thorough), first(k) for every k, all notations; large ranks up to sum k!, k<=12; standardisation of ints/floats/strings/Fractions/tuples/bools with ties and memo histories; validated constructor accepts exactly bijections; MeshPatt rank/unrank/of_length bijective. Every multiset of size n over n letters (n <= 8 / 10) for standardisation; cycle notation, ASCII and TikZ pictures read back; aliases; inputs of thousands of values under the default recursion budget.",
+        "All ranks/permutations up to length 7 (8 thorough), first(k) for every k, all notations; large ranks up to sum k!, k<=12; standardisation of ints/floats/strings/Fractions/tuples/bools with ties and memo histories; validated constructor accepts exactly bijections; MeshPatt rank/unrank/of_length bijective. Every multiset of size n over n letters (n <= 8 / 10) for standardisation; cycle notation, ASCII and TikZ pictures read back; aliases; inputs of thousands of values under the default recursion budget. Exhaustive mesh rank / unrank sweep at length 3 and for few-cell shadings at lengths 4-6 against the documented bit layout.",
         "Trusted: oracle std/rank. Domain limits stated in evidence (hashable comparable inputs; from_integer leading zero; str round trip <=10).",
         "DESIGN.md 4/C09",
     ),
     "C10": (
         EXH + "; oracle = point configurations + standardisation, definitional interval/run scanners, children/coveredby duality",
-        "Every permutation up to length 6 (8 thorough) with all argument values for insert/remove/shifts; all ordered pairs of length <=4 for composition and sums; generated triples and inflate component lists with None/empty components. Light sweep of the simplicity / decomposability predicates on every permutation of length 8 (9 thorough); negative and keyword indices; permutations of ~2000 points.",
-        "Trusted: oracle definitions. is_strongly_simple not asserted (docstring and code disagree, no independent definition).",
+        "Every permutation up to length 6 (8 thorough) with all argument values for insert/remove/shifts; all ordered pairs of length <=4 for composition and sums; generated triples and inflate component lists with None/empty components. Light sweep of the simplicity / decomposability predicates and of the interval, block, block-pattern and monotone-run methods on every permutation of length 8 (9 thorough); negative and keyword indices; permutations of ~2000 points.",
+        "Trusted: oracle definitions. is_strongly_simple is asserted as 'simple and every one-point deletion simple' (the code's reading and the usual definition; the docstring says 'any of').",
         "DESIGN.md 4/C10",
     ),
     "C11": (
@@ -82,7 +82,7 @@ CHECKS = {
     ),
     "C07": (
         "schedule-owning thread harness (sys.settrace preemption at every line of permset.py, cooperative replacement of the class lock) driven by Hypothesis-generated and PCT-style schedules; sequential brute-force model as oracle; real-thread stress run",
-        "Each case is (basis, 2-4 thread programs, schedule); every lock permset.py holds or creates (class attributes, class-level dicts, multiprocessing/threading Lock/RLock made lazily) is made cooperative, whatever the locking scheme; exactly one thread runs at a time so the run is a pure function of code and case and shrinks/replays as one value; every query result is compared with the sequential answer, exceptions and deadlocks are violations. Exploration: schedules are sampled, not enumerated. Lazily consumed enumerations with a scheduling point per item, threads racing to construct the class, parked deep builds against near-member / tail-occurrence membership queries, membership queries for the basis elements themselves.",
+        "Each case is (basis, 2-4 thread programs, schedule); every lock permset.py holds or creates (class attributes, class-level dicts, multiprocessing/threading Lock/RLock made lazily) is made cooperative, whatever the locking scheme; exactly one thread runs at a time so the run is a pure function of code and case and shrinks/replays as one value; every query result is compared with the sequential answer, exceptions and deadlocks are violations. Exploration: schedules are sampled, not enumerated. Lazily consumed enumerations with a scheduling point per item, threads racing to construct the class, parked deep builds against near-member / tail-occurrence membership queries, membership queries for the basis elements themselves. Finite classes: a short query parked in its first lines while another thread builds past the last non-empty level.",
         "Preemption granularity = one source line of permset.py; library code called from there runs atomically. A foreign blocking primitive introduced by a change shows up as a harness stall (exit 2), not as a violation.",
         "DESIGN.md 3.5, 4/C07",
     ),
@@ -100,7 +100,7 @@ CHECKS = {
     ),
     "C15": (
         "exhaustive enumeration of (single-permutation basis, direction word) pairs + generated bases; oracle = semantic language (reference containment on the decoded pin sequence), own product/cycle search on the automaton's transition table",
-        "All four construction routes must accept exactly the words of M whose encoded permutation contains a basis element (all words up to length 9/10); has_finite_pinperms against an own cycle search with semantic confirmation in both directions; database vs scratch by own product BFS. Automaton of a single pin word against its regular expression, exhaustive transition cover for strict pin words to 8 letters (11); bases with permutations without pin words; a 7-point pin permutation of the exceptional shape; listing orders with interleaved lengths; bases closed under symmetries of the square (5-6 point pin permutations and their images).",
+        "All four construction routes must accept exactly the words of M whose encoded permutation contains a basis element (all words up to length 9/10); has_finite_pinperms against an own cycle search with semantic confirmation in both directions; database vs scratch by own product BFS. Automaton of a single pin word against its regular expression, exhaustive transition cover for strict pin words to 8 letters (11); bases with permutations without pin words; a 7-point pin permutation of the exceptional shape; listing orders with interleaved lengths; bases closed under symmetries of the square (5-6 point pin permutations and their images). Simple 7-point pin permutations with 24 pin words in the long-element corpus.",
         "Words of length < 2 encode nothing. Semantic 'finite' confirmation needs l*+1 <= 11.",
         "DESIGN.md 4/C15",
     ),
@@ -112,7 +112,7 @@ CHECKS = {
     ),
     "C17": (
         "Hypothesis-generated finite input sets in three representations; oracle = the three guarantees (sound up to n, complete up to m, cell-wise irredundant) evaluated with reference mesh containment; differential check of the algorithm's private containment tests; auto_bisc end-to-end on generated properties",
-        "bisc output for arbitrary finite sets A (not only classes) is checked against A itself with the reference model; clean-up bases must hit every tested bad permutation and round-trip; the driver's sanity checks patterns_suffice_for_good/_for_bad are tested two-sided with intruders placed only at the last length; auto_bisc's description must coincide with the property on all permutations of length <= 8. Two-sided test of the driver's sanity checks; list input in several orders; corpus of properties that drive the driver into its bad-basis branch.",
+        "bisc output for arbitrary finite sets A (not only classes) is checked against A itself with the reference model; clean-up bases must hit every tested bad permutation and round-trip; the driver's sanity checks patterns_suffice_for_good/_for_bad are tested two-sided with intruders placed only at the last length; auto_bisc's description must coincide with the property on all permutations of length <= 8. Two-sided test of the driver's sanity checks; list input in several orders; corpus of properties that drive the driver into its bad-basis branch. n = 6 inputs with few long members.",
         "n <= 5, m <= 4; auto_bisc under a time budget (hit = inconclusive).",
         "DESIGN.md 4/C17",
     ),
@@ -124,7 +124,7 @@ CHECKS = {
     ),
     "C20": (
         "model-based stateful testing with fault injection (op-list strategy + Hypothesis RuleBasedStateMachine) over a scratch directory; exhaustive check of all shipped data against the family definitions; automaton database histories with own language-equivalence BFS",
-        "Write/rewrite/read/delete/truncate/empty/garbage histories against a dict model of the directory, including user files named like the shipped data sets (never written / written then deleted); every shipped (family, length) is a duplicate-free partition of S_k with good = the family by the C12 oracle definitions; loaded automata are language-equivalent to fresh ones after any store/create/load/forget history. User files named like shipped data sets; databases with automata of permutations without pin words; create_dfa_db_for_length as a whole (lengths to 4 quick, 6 thorough); equinumerous properties so that successive outputs have equal size and different content.",
+        "Write/rewrite/read/delete/truncate/empty/garbage histories against a dict model of the directory, including user files named like the shipped data sets (never written / written then deleted); every shipped (family, length) is a duplicate-free partition of S_k with good = the family by the C12 oracle definitions; loaded automata are language-equivalent to fresh ones after any store/create/load/forget history. User files named like shipped data sets; databases with automata of permutations without pin words; create_dfa_db_for_length as a whole (lengths to 4 quick, 6 thorough); equinumerous properties so that successive outputs have equal size and different content. Truncation also at structural boundaries of the text.",
         "Fault model = missing, truncated, emptied, non-JSON bytes. Two emptied len9 files are asserted to be reported invalid and skipped.",
         "DESIGN.md 4/C20",
     ),
